@@ -10,6 +10,8 @@ import (
 	"time"
 
 	"github.com/go-logr/logr"
+	"go.uber.org/zap"
+	"k8s.io/apimachinery/pkg/types"
 	"k8s.io/client-go/tools/record"
 	"sigs.k8s.io/controller-runtime/pkg/client"
 
@@ -37,6 +39,8 @@ type VerifC01Deps struct {
 	K8sClient      client.Client
 	DeployCtx      licensing.Collector
 	PodConfig      ngfConfig.GatewayPodConfig
+	// ControlConfigNSName is the NginxGateway object of this controller (StartManager: cfg.GatewayPodConfig.Namespace / cfg.ConfigName)
+	ControlConfigNSName types.NamespacedName
 }
 
 // VerifC01Handler wraps the real, unexported eventHandlerImpl.
@@ -62,6 +66,8 @@ func VerifC01NewHandler(d VerifC01Deps) *VerifC01Handler {
 		nginxConfiguredOnStartChecker: newNginxConfiguredOnStartChecker(),
 		eventRecorder:                 record.NewFakeRecorder(1 << 12),
 		gatewayPodConfig:              d.PodConfig,
+		controlConfigNSName:           d.ControlConfigNSName,
+		logLevelSetter:                newZapLogLevelSetter(zap.NewAtomicLevel()),
 		gatewayCtlrName:               d.ControllerName,
 		updateGatewayClassStatus:      true,
 	})
